@@ -64,7 +64,7 @@ def verif_files():
     for fam in FAMILIES:
         for f in glob.glob(os.path.join(COQ, fam, "*.v")):
             b = os.path.basename(f)
-            if b == "Tables.v" or b.startswith("Gen"):
+            if b == "Tables.v" or b.startswith("Gen") or (fam == "main" and b in ("Emph.v", "EmphProof.v")):
                 continue
             out.append(f)
     return out
@@ -84,6 +84,11 @@ def write_if_changed(path, content):
 
 def coq_project(fam):
     d = os.path.join(COQ, fam)
+    if fam == "main":
+        # the emphasis slice (EmphSpec ... EmphSlice) is stated against the abstract procedure of the emph family:
+        # the two files are copied, never edited, so that main proves its theorems about that very definition
+        for b in ("Emph.v", "EmphProof.v"):
+            write_if_changed(os.path.join(d, b), open(os.path.join(COQ, "emph", b)).read())
     vs = sorted(os.path.basename(f) for f in glob.glob(os.path.join(d, "*.v")) if os.path.basename(f) not in NOT_IN_PROJECT)
     changed = write_if_changed(os.path.join(d, "_CoqProject"), '-Q . ""\n' + "\n".join(vs) + "\n")
     if changed or not os.path.exists(os.path.join(d, "Makefile")):
